@@ -6,7 +6,8 @@
     admissible operation of the model and the real final books equal the
     model's). *)
 From Coq Require Import List ZArith PArith Bool.
-From KaiV Require Import Model.Res Model.Status Model.AMap Model.Node Model.NodeSpec Proofs.Node Proofs.Admissible.
+From KaiV Require Import Model.Res Model.Status Model.AMap Model.Node Model.NodeSpec Proofs.Node Proofs.Admissible
+     Run.NodeObs Run.Cycle Proofs.CycleSafe.
 Import ListNotations.
 Open Scope Z_scope.
 
@@ -52,6 +53,21 @@ Proof.
   - apply idle_never_negative; assumption.
 Qed.
 Print Assumptions C01_histories.
+
+(** The same over whole cycles, stated on the very replay function the
+    cycle-level correspondence check evaluates on the calls of the real scheduler
+    (Run/Cycle.v): if every Bind / Evict / TaskPipelined of a cycle is admissible
+    in the model state it is applied to ([replay] returns ok = true — this is what
+    the check establishes for every real cycle it runs) and evictions hit pods
+    that occupy their node, then no node ends the cycle with a negative idle
+    amount, for any number of nodes, pods and calls. *)
+Theorem C01_cycle_idle_never_negative :
+  forall (ts : list tinfo) (cs : list call) (ns ns' : amap node),
+    TasksWf ts -> NodesWf ns -> NodesNN ns ->
+    all_evict_occupying ts ns cs = true ->
+    replay ts ns cs = Some (ns', true) -> NodesNN ns'.
+Proof. intros ts cs ns ns'. exact (cycle_idle_never_negative ts cs ns ns'). Qed.
+Print Assumptions C01_cycle_idle_never_negative.
 
 (** Whole GPUs, for nodes without shared-GPU work: all six columns of the books
     are exact (C14_node_wholegpu_exact), so the same argument covers GPUs.
